@@ -626,45 +626,60 @@ def eol : List OTok → Except PErr (List OTok)
 
 /-- `_identifier`: (the identifiers joined by one blank, the remaining tokens) -/
 def identifier : List OTok → List Char × List OTok
-  | .ident v :: r =>
-    match r with
-    | .ident _ :: _ => let (s, r') := identifier r; (v ++ ' ' :: s, r')
-    | _ => (v, r)
+  | .ident v :: .ident w :: r => (v ++ ' ' :: (identifier (.ident w :: r)).1, (identifier (.ident w :: r)).2)
+  | .ident v :: r => (v, r)
   | toks => ([], toks)
 
 /-- `_names` -/
 def names : List OTok → List (List Char) × List OTok
   | .eol :: r => ([], r)
-  | .name s _ :: r => let (ns, r') := names r; (s :: ns, r')
-  | .defs l :: r => let (ns, r') := names r; (l ++ ns, r')
+  | .name s _ :: r => (s :: (names r).1, (names r).2)
+  | .defs l :: r => (l ++ (names r).1, (names r).2)
   | toks => ([], toks)
 
-mutual
-/-- `_struct(tokens, register)`; the first token is the STRUCT token -/
-def structH : Nat → Bool → List OTok → Except PErr (TypeRef × List OTok)
-  | 0, _, _ => .error .internal
-  | fuel + 1, register, .struct isUnion :: toks =>
-    let (tag, toks) : Option (List Char) × List OTok := match toks with
-      | .ident v :: r => (some v, r)
-      | _ => (none, toks)
-    match toks with
-    | [] => .error .noneAttribute
-    | .name _ _ :: _ =>
-      match tag, register with
-      | some n, false => .ok (.structRef n, toks)
-      | _, _ => .error .unexpectedAnonStruct
-    | .block _ :: r =>
-      match fieldsH fuel r with
+/-- the end of `_struct` behind the member list: the declared names (top level only), an optional `;`, the name check -/
+def structEnd (register isUnion : Bool) (tag : Option (List Char)) (fields : List FieldDecl) (toks : List OTok) :
+    Except PErr (TypeRef × List OTok) :=
+  let p : List (List Char) × List OTok := if register then names toks else ([], toks)
+  let rest := match p.2 with
+    | .eol :: r => r
+    | t => t
+  if register && p.1.isEmpty && tag.isNone then .error .structNoName
+  else .ok (.inline (.mk isUnion tag fields p.1), rest)
+
+/-- the end of `_parse_field` behind the type: the declarator and its `;`, or nothing behind an inline struct -/
+def fieldTail (ty : TypeRef) (wasStruct : Bool) (toks : List OTok) : Except PErr (FieldDecl × List OTok) :=
+  match toks with
+  | .name _ d :: r =>
+    match d with
+    | .error e => .error e
+    | .ok d =>
+      match eol r with
       | .error e => .error e
-      | .ok (fields, toks) =>
-        let (ns, toks) : List (List Char) × List OTok := if register then names toks else ([], toks)
-        let toks := match toks with
-          | .eol :: r => r
-          | _ => toks
-        if register && ns.isEmpty && tag.isNone then .error .structNoName
-        else .ok (.inline (.mk isUnion tag fields ns), toks)
-    | _ :: _ => .error .expectedBlock
+      | .ok r' => .ok (.named ty d, r')
+  | [] => if wasStruct then .ok (.anon ty, []) else .error .noneAttribute
+  | _ :: _ => if wasStruct then .ok (.anon ty, toks) else .error .expectedName
+
+mutual
+/-- `_struct(tokens, register)`; the first token is the STRUCT token, an identifier behind it is the tag -/
+def structH : Nat → Bool → List OTok → Except PErr (TypeRef × List OTok)
+  | fuel + 1, register, .struct isUnion :: .ident v :: toks => structTail fuel register isUnion (some v) toks
+  | fuel + 1, register, .struct isUnion :: toks => structTail fuel register isUnion none toks
   | _, _, _ => .error .internal
+
+/-- `_struct` behind the keyword and the tag -/
+def structTail : Nat → Bool → Bool → Option (List Char) → List OTok → Except PErr (TypeRef × List OTok)
+  | 0, _, _, _, _ => .error .internal
+  | _, _, _, _, [] => .error .noneAttribute
+  | _, register, _, tag, .name s d :: r =>
+    match tag, register with
+    | some n, false => .ok (.structRef n, .name s d :: r)
+    | _, _ => .error .unexpectedAnonStruct
+  | fuel + 1, register, isUnion, tag, .block _ :: r =>
+    match fieldsH fuel r with
+    | .error e => .error e
+    | .ok (fields, toks) => structEnd register isUnion tag fields toks
+  | _, _, _, _, _ :: _ => .error .expectedBlock
 
 /-- the member loop of `_struct`: until `}` or the end of the tokens -/
 def fieldsH : Nat → List OTok → Except PErr (List FieldDecl × List OTok)
@@ -682,27 +697,12 @@ def fieldsH : Nat → List OTok → Except PErr (List FieldDecl × List OTok)
 /-- `_parse_field` -/
 def fieldH : Nat → List OTok → Except PErr (FieldDecl × List OTok)
   | 0, _ => .error .internal
-  | fuel + 1, toks =>
-    let head : Except PErr (TypeRef × List OTok × Bool) := match toks with
-      | .ident _ :: _ => let (s, r) := identifier toks; .ok (.name s, r, false)
-      | .struct _ :: _ =>
-        match structH fuel false toks with
-        | .error e => .error e
-        | .ok (ty, r) => .ok (ty, r, true)
-      | _ => .ok (.none, toks, false)
-    match head with
+  | _, .ident v :: r => fieldTail (.name (identifier (.ident v :: r)).1) false (identifier (.ident v :: r)).2
+  | fuel + 1, .struct u :: r =>
+    match structH fuel false (.struct u :: r) with
     | .error e => .error e
-    | .ok (ty, toks, wasStruct) =>
-      match toks with
-      | .name _ d :: r =>
-        match d with
-        | .error e => .error e
-        | .ok d =>
-          match eol r with
-          | .error e => .error e
-          | .ok r' => .ok (.named ty d, r')
-      | [] => if wasStruct then .ok (.anon ty, []) else .error .noneAttribute
-      | _ :: _ => if wasStruct then .ok (.anon ty, toks) else .error .expectedName
+    | .ok (ty, r') => fieldTail ty true r'
+  | _, toks => fieldTail .none false toks
 end
 
 /-- one name of a typedef: `_parse_field_type`, then "typedefs cannot have bitfields" -/
@@ -711,22 +711,28 @@ def typedefName (n : List Char) : Except PErr Declarator :=
   | .error e => .error e
   | .ok d => if d.bits.isSome then .error .typedefBitfield else .ok d
 
+/-- the loop of `_typedef` over the names, each through `_parse_field_type` -/
+def typedefOf (ty : TypeRef) (ns : List (List Char)) (rest : List OTok) : Except PErr (Decl × List OTok) :=
+  match ty, ns with
+  | .none, _ :: _ => .error .typedefNoType
+  | _, ns =>
+    match ns.mapM typedefName with
+    | .error e => .error e
+    | .ok ds => .ok (.typedef ty ds, rest)
+
+/-- the end of `_typedef` behind the type: the names -/
+def typedefTail (ty : TypeRef) (toks : List OTok) : Except PErr (Decl × List OTok) :=
+  typedefOf ty (names toks).1 (names toks).2
+
 /-- `_typedef`; after the TYPEDEF token -/
 def typedefH (toks : List OTok) : Except PErr (Decl × List OTok) :=
-  let head : Except PErr (TypeRef × List OTok) := match toks with
-    | .ident _ :: _ => let (s, r) := identifier toks; .ok (.name s, r)
-    | .struct _ :: _ => structH (3 * toks.length + 4) false toks
-    | _ => .ok (.none, toks)
-  match head with
-  | .error e => .error e
-  | .ok (ty, toks) =>
-    let (ns, toks) := names toks
-    match ty, ns with
-    | .none, _ :: _ => .error .typedefNoType
-    | _, _ =>
-      match ns.mapM typedefName with
-      | .error e => .error e
-      | .ok ds => .ok (.typedef ty ds, toks)
+  match toks with
+  | .ident _ :: _ => typedefTail (.name (identifier toks).1) (identifier toks).2
+  | .struct _ :: _ =>
+    match structH (4 * toks.length + 8) false toks with
+    | .error e => .error e
+    | .ok (ty, r) => typedefTail ty r
+  | _ => typedefTail .none toks
 
 /-- `_enum`; `m`: the groups of the ENUM token, `toks`: the tokens after it -/
 def enumH (m : Option EnumM) (toks : List OTok) : Except PErr (Decl × List OTok) :=
@@ -749,7 +755,7 @@ def declH : List OTok → Except PErr (Decl × List OTok)
     | none => .error .rematchAttribute
   | .typedef :: toks => typedefH toks
   | .struct u :: toks =>
-    match structH (3 * toks.length + 7) true (.struct u :: toks) with
+    match structH (4 * toks.length + 12) true (.struct u :: toks) with
     | .ok (.inline a, r) => .ok (.aggr a, r)
     | .ok _ => .error .internal
     | .error e => .error e
@@ -766,7 +772,7 @@ def declsH : Nat → List OTok → List Decl × Option PErr
   | fuel + 1, t :: toks =>
     match declH (t :: toks) with
     | .error e => ([], some e)
-    | .ok (d, r) => let (ds, e) := declsH fuel r; (d :: ds, e)
+    | .ok (d, r) => (d :: (declsH fuel r).1, (declsH fuel r).2)
 
 def parseToks (toks : List Tok) : List Decl × Option PErr := declsH (toks.length + 1) (toks.map Tok.obs)
 
